@@ -73,6 +73,22 @@ CHECKS = {
         note="Programs are a fixed list (positions), sizes are fully symbolic. Assumes BASIC09's default string capacity is 32.",
         design="DESIGN.md §5 C10",
     ),
+    "C11": dict(
+        engine="tv",
+        category=TV,
+        technique="pairs of real convert() outputs that differ in one option: text equality modulo exactly the documented difference + BASIC09<->BASIC09 equivalence for all inputs decided by z3 over the symbolic machine; CLI flag mapping enumerated with a recording stub",
+        text="For every program of the statement-coverage / device families (plus programs with labels, handlers, DATA, control characters) and each of six single-option changes (label filtering, pre-initialisation, width flag, dependency output, default string size, suffix) the two outputs must be equal after removing exactly what the option documents (labels / prologue assignments and fill loops / the _ecb_start flag / header and bundled procedures / STRING[n] sizes and DIM x$ lines); for the behavioural options the two outputs are also executed from the same symbolic state and z3 decides they behave identically. decb_to_b09.start is run with convert_file replaced by a recorder for all flag combinations and seven file-name shapes; CR line ends and the procedure header are checked end to end.",
+        note="The CLI part enumerates (no symbolic content); argparse and real pipes are outside. The text rules are regular-expression definitions of 'prologue assignment' and 'fill loop' lines in vf/props/c11.py.",
+        design="DESIGN.md §5 C11",
+    ),
+    "C13": dict(
+        engine="tv+rxsmt",
+        category=TV,
+        technique="bundle linker; the set of procedures that must be present is the least fixpoint of the RUN relation computed by z3's Fixedpoint (datalog) engine over independently parsed edges; z3 regex queries over the real procbank regexes",
+        text="For one program per runtime-using statement/function, pairs of them, programs with several hoisted calls on one line and programs whose strings / DATA / comments contain RUN, PROCEDURE, the size placeholder or control characters, x default string size 32/40: the real bundle is split by an independent reader; present procedures must equal the z3-computed reachable set, once each, alphabetical, program last; every RUN must resolve in the bundle or to an OS-9 module; every STRING<<>> must carry the requested size; the program part must equal the output without dependencies. z3 proves over the real INVOKED_PROCEDURE_NAMES / STR_STORAGE_TAG regexes that no match can start inside a string literal of a quote-balanced line (length <= 24).",
+        note="RUN edges are read by vf/tv/lib.py and vf/props/c13.py (statement level, outside strings and comments) - the trusted reference for 'reachable'.",
+        design="DESIGN.md §5 C13",
+    ),
     "C14": dict(
         engine="tv",
         category=TV,
